@@ -237,12 +237,16 @@ def filter_args(func, ignore_lst, args=(), kwargs=dict()):
         return {"*": args, "**": kwargs}
     arg_sig = inspect.signature(func)
     arg_names = []
-    arg_defaults = []
+    arg_defaults = dict()
+    arg_posonlyargs = []
     arg_kwonlyargs = []
     arg_varargs = None
     arg_varkw = None
     for param in arg_sig.parameters.values():
-        if param.kind is param.POSITIONAL_OR_KEYWORD:
+        if param.kind is param.POSITIONAL_ONLY:
+            arg_names.append(param.name)
+            arg_posonlyargs.append(param.name)
+        elif param.kind is param.POSITIONAL_OR_KEYWORD:
             arg_names.append(param.name)
         elif param.kind is param.KEYWORD_ONLY:
             arg_names.append(param.name)
@@ -252,7 +256,9 @@ def filter_args(func, ignore_lst, args=(), kwargs=dict()):
         elif param.kind is param.VAR_KEYWORD:
             arg_varkw = param.name
         if param.default is not param.empty:
-            arg_defaults.append(param.default)
+            # Defaults are looked up by parameter name: a keyword-only
+            # parameter with a default can precede one without.
+            arg_defaults[param.name] = param.default
     if inspect.ismethod(func):
         # First argument is 'self', it has been removed by Python
         # we need to add it back:
@@ -263,8 +269,10 @@ def filter_args(func, ignore_lst, args=(), kwargs=dict()):
         # include self, we need to fetch it from the class method, i.e
         # func.__func__
         class_method_sig = inspect.signature(func.__func__)
-        self_name = next(iter(class_method_sig.parameters))
-        arg_names = [self_name] + arg_names
+        self_param = next(iter(class_method_sig.parameters.values()))
+        arg_names = [self_param.name] + arg_names
+        if self_param.kind is self_param.POSITIONAL_ONLY:
+            arg_posonlyargs.append(self_param.name)
     # XXX: Maybe I need an inspect.isbuiltin to detect C-level methods, such
     # as on ndarrays.
 
@@ -272,8 +280,12 @@ def filter_args(func, ignore_lst, args=(), kwargs=dict()):
     arg_dict = dict()
     arg_position = -1
     for arg_position, arg_name in enumerate(arg_names):
-        if arg_position < len(args):
+        if arg_position < len(args) and not (
+            arg_name in arg_kwonlyargs and arg_varargs is not None
+        ):
             # Positional argument or keyword argument given as positional
+            # (with *args, surplus positional arguments never reach the
+            # keyword-only parameters)
             if arg_name not in arg_kwonlyargs:
                 arg_dict[arg_name] = args[arg_position]
             else:
@@ -289,12 +301,11 @@ def filter_args(func, ignore_lst, args=(), kwargs=dict()):
                 )
 
         else:
-            position = arg_position - len(arg_names)
-            if arg_name in kwargs:
+            if arg_name in kwargs and arg_name not in arg_posonlyargs:
                 arg_dict[arg_name] = kwargs[arg_name]
             else:
                 try:
-                    arg_dict[arg_name] = arg_defaults[position]
+                    arg_dict[arg_name] = arg_defaults[arg_name]
                 except (IndexError, KeyError) as e:
                     # Missing argument
                     raise ValueError(
@@ -308,7 +319,7 @@ def filter_args(func, ignore_lst, args=(), kwargs=dict()):
 
     varkwargs = dict()
     for arg_name, arg_value in sorted(kwargs.items()):
-        if arg_name in arg_dict:
+        if arg_name in arg_dict and arg_name not in arg_posonlyargs:
             arg_dict[arg_name] = arg_value
         elif arg_varkw is not None:
             varkwargs[arg_name] = arg_value
@@ -321,7 +332,8 @@ def filter_args(func, ignore_lst, args=(), kwargs=dict()):
     if arg_varkw is not None:
         arg_dict["**"] = varkwargs
     if arg_varargs is not None:
-        varargs = args[arg_position + 1 :]
+        # The keyword-only parameters are last in arg_names
+        varargs = args[len(arg_names) - len(arg_kwonlyargs) :]
         arg_dict["*"] = varargs
 
     # Now remove the arguments to be ignored
